@@ -13,3 +13,100 @@ Theorem C01_item_is_entry_ir :
                    flatten (s_dreg s) r = Ok flat /\ create_type_ir r s t flat = Ok (Some ir).
 Proof. exact generate_items_come_from_entries. Qed.
 Print Assumptions C01_item_is_entry_ir.
+
+(** ** wire fidelity at the level of the IR (definitions: Model/Shape.v) *)
+From V Require Import Model.Shape Proofs.FidelityBase Proofs.ShapeBool Proofs.Fidelity
+  Proofs.FidelityGen Proofs.FidelityExample.
+
+(** first insertion wins: the item found at the path of an item-eligible entry X is the IR of
+    the FIRST item-eligible entry with that path *)
+Theorem C01_lookup :
+  forall r s teq m,
+    generate r s teq = Ok m ->
+    forall id X, In (id, X) r -> item_eligible s X = true ->
+    exists id0 X0 ir0 flat,
+      first_eligible r s (t_path X) = Some (id0, X0) /\
+      flatten (s_dreg s) r = Ok flat /\
+      create_type_ir r s X0 flat = Ok (Some ir0) /\
+      items_get m (t_path X) = Some (id0, ir0).
+Proof. exact generate_lookup. Qed.
+Print Assumptions C01_lookup.
+
+(** the core, for ANY registry and ANY item map that satisfies [items_ok] (each item is, up to
+    the ids stored in its parameters, the own IR of every entry it stands for): a type
+    expression resolved under parent parameters P, with the parameters replaced by type
+    expressions that have the registry shape of the ids they stand for, has the registry
+    shape of the resolved id - at every depth, for field and non-field positions alike *)
+Theorem C01_resolve_shape :
+  forall r s m,
+    items_ok r s m -> root_fresh s ->
+    forall n fuel id is_field P orig fp sg,
+      resolve_rec r s fuel id is_field P orig = Ok fp ->
+      sigma_ok r s m n P sg ->
+      shape_rust m s n (subst_tpath sg fp) = shape_reg r s n id.
+Proof. exact resolve_shape. Qed.
+Print Assumptions C01_resolve_shape.
+
+(** own skeleton: substituting X's own resolved arguments for the [Param i] nodes of a
+    field's type path gives the shape of the field's type id (for every [ty] X, registered
+    or not; the compact flag of a field plays no role: [TCompact _ is_field _] is
+    [SCompact] either way) *)
+Theorem C01_own_skeleton :
+  forall r s teq m,
+    skeleton_consistent r s -> root_fresh s -> generate r s teq = Ok m ->
+    forall (X : ty) (f : field) fp args n,
+      let P := params_from_scale_info (t_params X) in
+      resolve_field_type_path r s (f_ty f) P (f_type_name f) = Ok fp ->
+      Forall2 (fun p a => resolve_type_path r s (tpi_id p) = Ok a) P args ->
+      shape_rust m s n (subst_tpath (mk_sigma P args) fp) = shape_reg r s n (f_ty f).
+Proof. exact own_skeleton. Qed.
+Print Assumptions C01_own_skeleton.
+
+(** the generated items of a skeleton-consistent registry satisfy [items_ok] *)
+Theorem C01_items_ok :
+  forall r s teq m, skeleton_consistent r s -> generate r s teq = Ok m -> items_ok r s m.
+Proof. exact generate_items_ok. Qed.
+Print Assumptions C01_items_ok.
+
+(** fidelity: whenever generation succeeds on a skeleton-consistent registry, the type
+    expression named for ANY id, read against the generated items, has the registry shape of
+    that id at every depth.  No well-formedness of the registry, no restriction on derives,
+    docs, alloc / compact / bits paths or substitutes (pass-through and parameter-mapping)
+    is needed beyond [root_fresh] (DESIGN 3.2: the root ident is not the head of a user path) *)
+Theorem C01_fidelity :
+  forall r s teq m,
+    skeleton_consistent r s -> root_fresh s -> generate r s teq = Ok m -> Faithful r s m.
+Proof. exact generate_faithful. Qed.
+Print Assumptions C01_fidelity.
+
+(** the hypothesis is decidable *)
+Theorem C01_skeleton_consistentb_sound :
+  forall r s, skeleton_consistentb r s = true -> skeleton_consistent r s.
+Proof. exact skeleton_consistentb_sound. Qed.
+Print Assumptions C01_skeleton_consistentb_sound.
+
+Theorem C01_root_freshb_sound : forall s, root_freshb s = true -> root_fresh s.
+Proof. exact root_freshb_sound. Qed.
+Print Assumptions C01_root_freshb_sound.
+
+(** non-vacuity: a registry with nested modules, a two-parameter generic enum with a compact
+    and a boxed recursive field in three instantiations, Option, Cow, a bit sequence, a
+    pass-through and a parameter-mapping substitute satisfies every hypothesis, generates,
+    every id resolves, and the two readings agree (computed to depth 6, proved for all) *)
+Theorem C01_nonvacuous :
+  skeleton_consistent ex_reg ex_settings /\ root_fresh ex_settings /\
+  generate ex_reg ex_settings (Equal.types_equal ex_reg) = Ok ex_items /\
+  map fst ex_items = [["a"; "Wrap"]; ["a"; "b"; "Tree"]]%string /\
+  forallb (fun x => is_ok x) ex_paths = true /\
+  faithful_upto ex_reg ex_settings ex_items 7 = true /\
+  Faithful ex_reg ex_settings ex_items.
+Proof.
+  exact (conj ex_skeleton_consistent (conj ex_root_fresh (conj (proj1 ex_generate_ok)
+          (conj (proj2 ex_generate_ok) (conj ex_all_resolve (conj ex_faithful_upto_6 ex_faithful)))))).
+Qed.
+Print Assumptions C01_nonvacuous.
+
+(** the predicate is not trivially true: a same-path family with a coincidence is rejected *)
+Theorem C01_inconsistent_rejected : skeleton_consistentb ex_reg_bad ex_settings = false.
+Proof. exact ex_bad_inconsistent. Qed.
+Print Assumptions C01_inconsistent_rejected.
